@@ -83,6 +83,43 @@ def digit_statements(v, f):
     return digits, touch, None
 
 
+def unify_digits(digits, N, R):
+    """Several digit statements (an unrolled coefficient loop and its remainder) as one: each statement is re-parameterised
+    by the coefficient position it writes; all must then be the same map position -> digit, and together their loops must
+    visit every position of [0, N) exactly once (index-coverage decision).  -> (statement, coverage verdict, detail);
+    raises LookupError when the statements are not comparable."""
+    from sa import coverage, pam
+    if len(digits) == 1:
+        return digits[0], "single", ""
+    J = sym.sym("j*")
+    unified, terms, pl0 = [], [], None
+    for d in digits:
+        if len(d["loops"]) != 2 or d["lv"][0] != "idx":
+            raise LookupError("digit statement at line %s is not in a (p, j) nest" % d["line"])
+        pl, jl = d["loops"]
+        if pl0 is None:
+            pl0 = pl
+        elif pl is not pl0 and (pl["lo"], pl["cmp"], pl["hi"], pl["step"]) != (pl0["lo"], pl0["cmp"], pl0["hi"], pl0["step"]):
+            raise LookupError("digit statements run under different digit loops")
+        piece = {"loops": list(d["loops"]), "lv": d["lv"], "val": d["val"], "guards": [], "op": "=", "line": d["line"]}
+        q = pam.normalise_dest(piece, d["lv"][1])
+        jq = q["loops"][-1]["var"]
+        ren = {jq: J, pl["var"]: pl0["var"]}
+        if q["lv"][2] != jq:
+            raise LookupError("digit statement at line %s writes position %s, not a coefficient position of its loop" % (d["line"], sym.show(d["lv"][2])))
+        unified.append((sym.subst(q["lv"], ren), sym.subst(q["val"], ren)))
+        terms.append((dict(jl, lo=R(jl["lo"]), hi=R(jl["hi"])), d["lv"][2], 1))
+    if len(set(unified)) != 1:
+        raise LookupError("the %d digit statements compute different maps: %s" % (len(digits), sorted({sym.show(u[1])[:80] for u in unified})[:2]))
+    status, detail = coverage.cover_1d(terms, N)
+    if status == "unknown":
+        raise LookupError(detail)
+    lv, val = unified[0]
+    one = {"loops": [pl0, {"var": J, "lo": ZERO, "cmp": "<", "hi": N, "step": I(1), "l": digits[0]["line"], "name": "j"}],
+           "lv": lv, "val": val, "line": digits[0]["line"], "via": digits[0]["via"], "statements": len(digits)}
+    return one, status, detail
+
+
 def run(chk):
     prog = Program()
     chk.explanation = (
@@ -115,10 +152,18 @@ def check_variant(chk, v):
         chk.broken(err)
     chk.vcount(vn, "R1.digit_statements", len(digits))
     chk.vcount(vn, "R4.input_touching_statements", len(touch))
-    if len(digits) != 1:
-        chk.broken("%s: expected one digit statement, found %d" % (FN, len(digits)))
-    d = digits[0]
+    if not digits:
+        chk.broken("%s: no digit statement found" % FN)
+    try:
+        d, cov_status, cov_detail = unify_digits(digits, N, R)
+    except LookupError as e:
+        chk.broken("%s: %s" % (FN, e))
     via = d["via"]
+    if cov_status == "refuted":
+        chk.refuted("R5", "every coefficient position j in [0,N) of every digit p in [0,l) is computed from input coefficient j alone [%s path]" % via,
+                    where="%s:%s" % (f.file, d["line"]), detail="the %d digit statements do not visit every coefficient position exactly once: %s" % (
+                        len(digits), cov_detail), variant=vn)
+        return
     if len(d["loops"]) != 2:
         chk.broken("digit statement is not in a (p, j) nest")
     pl, jl = d["loops"]
